@@ -102,6 +102,16 @@ def run(ctx: Ctx):
         ctx.check(im.camel(s) == k, "camel-inverts-snake", f"keyword={k}",
                   f"_to_camel_case({s!r}) = {im.camel(s)!r}, expected {k!r}", P_HOOKS,
                   sample={"keyword": k, "attr": s, "wire": im.camel(s)})
+    # (a') what cattrs is actually handed: rename= of both factories for every attribute
+    for direction in ("unstructure", "structure"):
+        ren = special.folded_rename(im, direction)
+        for c in t.attrs_classes():
+            for f in c.fields:
+                want = im.camel(f.name)
+                got = ren(c.name, f.name)
+                ctx.check(got == want, "factory-rename", f"{direction}:{c.name}.{f.name}",
+                          f"the {direction} factory hands cattrs rename={got!r} for {c.name}.{f.name}; _to_camel_case gives {want!r}",
+                          P_HOOKS, f.lineno)
     # (c) wiring
     probs = [p for p in special.factory_wiring(im)]
     for construct, msg, ln in probs:
@@ -110,7 +120,7 @@ def run(ctx: Ctx):
         ctx.ok("factory-wiring")
     # (d) always-present
     exp = special.expected_special(im)
-    omit = special.fold_omit(im)
+    omit = special.folded_omit(im)
     for q, why in sorted(exp.items()):
         c, a = q.split(".", 1)
         if c not in t.classes or t.classes[c].field(a) is None:
